@@ -274,7 +274,7 @@ Section Step.
                Forall2 row_equiv (trows t') (spec_step glo gs c mus) /\
                inv (tb t') (spec_step glo gs c mus) /\ tb t' <> [].
   Proof.
-    intros c t mus D Hne Hrows Hinv. unfold process_clause. rewrite (d_spec3 c D).
+    intros c t mus D Hne Hrows Hinv. unfold process_clause. rewrite (d_spec3 c D). unfold process_general.
     rewrite (spec_step_one glo gs c mus).
     assert (Hinv' : inv (add_all (tb t) (clause_bindings c)) (flat_map (spec_one glo gs c) mus)).
     { intros x Hx. apply in_flat_map in Hx. destruct Hx as [mu [Hmu Hx]]. eapply spec_one_keys; eauto. }
@@ -351,10 +351,11 @@ Section Step.
                Forall2 row_equiv (trows t') (spec_step glo gs c [[]]) /\
                inv (tb t') (spec_step glo gs c [[]]) /\ tb t' <> [].
   Proof.
-    intros c D Hopt. unfold process_clause. rewrite (d_spec3 c D). cbn [tb trows empty_table filter].
+    intros c D Hopt. unfold process_clause. rewrite (d_spec3 c D). unfold process_general. cbn [tb trows empty_table filter].
     assert (E0 : filter (fun b => mem b []) (clause_bindings c) = []).
     { induction (clause_bindings c) as [|x l IH]; cbn; auto. }
     rewrite E0. destruct (fetch_spec_extend c D) as [F [EF HF]]. rewrite EF. cbn [bind].
+    rewrite Hopt, andb_false_r. cbn [andb].
     unfold append_table, lift_table. cbn [tb trows app].
     rewrite (spec_step_one glo gs c [[]]). cbn [flat_map]. rewrite app_nil_r.
     assert (Hone : spec_one glo gs c [] = spec_extend c glo gs []).
